@@ -69,6 +69,10 @@ P('C10','compiler-proved bounds (go build -d=ssa/check_bce: every bounds check t
   "Proof for the stated clauses only: every index/slice expression of clientHelloBufferSize, readServerName and clientHelloMsg.unmarshal is proved in bounds by the Go compiler's prove pass (obligations counted from the AST; discharged = no compiler report), the functions contain no other panic source, the residual data[5:] of the SNI handler is discharged by result >= 10 on the nil-error path, the buffer size satisfies result - recordLength <= 5 and result <= 16389 on every nil-error return (never more than the first TLS record), and the handler allocates exactly that size, performs one consuming read into it and looks up the route only under the successfully parsed, non-empty name. Equality of the extracted name with crypto/tls's on well-formed hellos is semantic equivalence of two parsers and is NOT part of the claim.",
   "Trusted: soundness of the Go compiler's prove pass (bounds-check elimination), the checker's difference-bound prover, Go type checker and go/ssa, io.ReadFull's contract.", level='proof')
 
+P('C15','table agreement over the flag registrations (AST + types), ordering/control-dependence rules on ParseFlags, partial-operation guards, config-int-to-sink value flow with range-check lookup, error-use (ERRUSE) rule',
+  "Decides structurally: every flag's default is the default of the very field it sets (frozen reasoned exceptions), no variable is bound twice and names are unique case-insensitively; the command line is parsed and marked first, the fallback pass skips marked flags, consults the environment (prefixes FABIO_ then plain, upper-cased names) before the properties, and every source marks, assigns through FlagSet.Set and stops; Split/Index uses reachable from config.Load are guarded; int options reaching an allocation size, channel capacity or status code are range-checked in load or clamped at the use; constructors' nil results are not used after a merely logged error in start-up code. Equality of the resulting Config across sources for every value is flag.Value.Set's behaviour and not decided.",
+  COMMON_NOTE)
+
 checks=[]; na=[]
 for p in props:
     id=p['id']
